@@ -3438,3 +3438,41 @@ def step_applied(r: R, chk, qual: str, rule="STEP-APPLIED"):
                    func=qual, construct=f"iterate {x} returned before the computed step is applied")
     chk.floor(rule, f"Newton steps in {qual}", n, 1)
     return n
+
+
+# ---------------------------------------------------------------------------------------------------------
+# ELEVATED-VECTOR: the knot vector that goes with Operations.degree_increase(U, t) is U + t * U.knots
+def elevated_vector(r: R, chk, quals: List[str], rule="ELEVATED-VECTOR", floor: int = 1):
+    """The matrix of `Operations.degree_increase(U, t)` maps onto the vector in which EVERY distinct knot of U is repeated t more
+    times.  Where a function that asks for that matrix also writes `U + t * W`, W has to be the distinct knots of U — with the two
+    ends only (`limits`, the Bezier idiom) the vector no longer matches the matrix as soon as U has an interior knot."""
+    from .common import expand_locals
+
+    n = 0
+    for q in quals:
+        fi = r.prog.func(q)
+        calls = [c for c in ast.walk(fi.node) if isinstance(c, ast.Call) and seg(c.func).endswith("Operations.degree_increase") and len(c.args) >= 2]
+        for c in calls:
+            t_txt = seg(expand_locals(fi, c.args[1]))
+            for b in ast.walk(fi.node):
+                if not (isinstance(b, ast.BinOp) and isinstance(b.op, ast.Add)):
+                    continue
+                rhs = expand_locals(fi, b.right)
+                if not (isinstance(rhs, ast.BinOp) and isinstance(rhs.op, ast.Mult)):
+                    continue
+                w = None
+                if seg(rhs.left) == t_txt:
+                    w = rhs.right
+                elif seg(rhs.right) == t_txt:
+                    w = rhs.left
+                if w is None:
+                    continue
+                n += 1
+                while isinstance(w, ast.Call) and seg(w.func) in ("tuple", "list") and w.args:
+                    w = w.args[0]
+                ok = isinstance(w, ast.Attribute) and w.attr == "knots"
+                chk.ob(rule, f"{q}: `{seg(b, 50)}` repeats every distinct knot", ok, loc=f"{fi.module}.py:{b.lineno}",
+                       detail="" if ok else f"{q}: `{seg(b, 60)}` goes with the matrix of `{seg(c, 50)}` but repeats `{seg(w, 30)}` instead of every distinct knot of the vector: with an interior knot the elevated vector has fewer knots than the matrix has rows — the operation on a rational spline and a polynomial curve of another degree raises / returns a wrong curve",
+                       func=q, construct=f"elevated vector repeats {seg(w, 30)}")
+    chk.floor(rule, "elevated knot vectors written next to Operations.degree_increase", n, floor)
+    return n
